@@ -414,6 +414,22 @@ func Y(site, kind string) {
 	s.park(site, kind, nil)
 }
 
+// OnceDo replaces once.Do(f) in instrumented code: the Once's mutex is taken through
+// the scheduler (park, try, re-park), so that a caller that finds another goroutine
+// inside f waits where the scheduler can see it.
+func OnceDo(site string, o *sync.Once, f func()) {
+	if o.VerifDone() {
+		return
+	}
+	s := S
+	if s == nil || !s.active {
+		o.Do(f)
+		return
+	}
+	AcquireM(site, o.VerifTryLock, o.VerifLock, 0, true)
+	o.VerifFinish(f)
+}
+
 // SpinLocks makes Acquire poll with durable sleeps when no scheduler is
 // installed (T2: instrumented repo code running unscheduled in a bubble).
 var SpinLocks bool
